@@ -27,6 +27,26 @@ func init() {
 		})
 	}
 	regProp(&propDef{
+		id:   "C11",
+		gen:  func(seed uint64, th bool) *Plan { return genBlockPlan(seed, th) },
+		chk:  newBlockChecker,
+		rule: "2-4 blocking consumers (any of the five commands, 1-2 keys), 1-3 producers (pushes of 1-3 unique elements, LMOVE, pushes inside EXEC), 0-2 competing non-blocking consumers, every emulator goroutine scheduled from the tape through the block/wake protocol points; oracles: linearizability of the whole history incl. final read-back (conservation, exactly-once, order), no client left blocked on a non-empty list at quiescence, and in the FIFO class (waiters registered in a known order, one pusher) the i-th pushed element completes the i-th waiter; non-trivial = a blocking command was served after having blocked, or a woken waiter found its list empty; distinct = distinct scheduler event sequence",
+		nontrivial: func(res *RunResult) bool {
+			return res.Stats.Probes["blocked-then-served"] > 0 || res.Stats.Probes["block.retry-failed"] > 0
+		},
+		needProbes:      []string{"blocked-then-served"},
+		quickRuns:       5000,
+		thoroughRuns:    400000,
+		quickSeconds:    60,
+		thoroughSeconds: 900,
+		level:           "exploration",
+		explanation:     "The six schedule points of the block/wake loop (before register, after register, before capture, before wait, after wake, after failed retry) are hook sites, so the tape can park a waiter at any of them while producers and competitors run.",
+		assumptions: []string{
+			"blocking pops are specified as: pop at a single instant in [invoke, return] at which data was available; a null reply requires an instant at which every key was empty",
+			"the FIFO class relies on await-blocked (the dispatch goroutine of the previous waiter sits in its select) to fix the registration order",
+		},
+	})
+	regProp(&propDef{
 		id:   "C14",
 		gen:  func(seed uint64, th bool) *Plan { return genDbPlan(seed, th) },
 		chk:  newSeqChecker,
